@@ -288,20 +288,36 @@ def check_tree(e, w):
         e.check(len(got) == len(exp) and all(g is x for g, x in zip(got, exp)), 'getElementsByTagName(%r)' % name, 'by-tag-name')
     allk = w.root.allChildNodes
     e.check(len(allk) == len(order) - 1 and all(a is b for a, b in zip(allk, order[1:])), 'allChildNodes is not the depth-first order', 'all-children')
-    # document position of the first vs every other node
-    if len(order) >= 3:
-        a = order[1]
-        for b in order[2:]:
+    # document position of every ordered pair of nodes, both directions
+    def contains(a, b):
+        anc = b.parentNode
+        while anc is not None:
+            if anc is a:
+                return True
+            anc = anc.parentNode
+        return False
+    nodes = order[1:]
+    for i, a in enumerate(nodes):
+        for j, b in enumerate(nodes):
+            if i == j:
+                continue
             r = a.compareDocumentPosition(b)
-            anc = b
-            contained = False
-            while anc is not None:
-                anc = anc.parentNode
-                if anc is a:
-                    contained = True
-                    break
-            want = Node.DOCUMENT_POSITION_CONTAINED_BY if contained else Node.DOCUMENT_POSITION_FOLLOWING
-            e.check(r == want, 'compareDocumentPosition: got %s want %s' % (r, want), 'document-position')
+            if contains(a, b):
+                want = Node.DOCUMENT_POSITION_CONTAINED_BY
+            elif contains(b, a):
+                want = Node.DOCUMENT_POSITION_CONTAINS
+            else:
+                want = Node.DOCUMENT_POSITION_FOLLOWING if j > i else Node.DOCUMENT_POSITION_PRECEDING
+            e.check(r == want, 'compareDocumentPosition of node %d with node %d (document order): got %s want %s' % (i, j, r, want), 'document-position')
+    # shallow clone: same kind of node, and the original keeps its children
+    for n in nodes:
+        if w.is_el(n) and len(w.kids[id(n)]):
+            sh = n.cloneNode(False)
+            e.check(sh.nodeName == n.nodeName and sh is not n, 'shallow clone is not a new node of the same name', 'clone')
+            e.check(all(k.parentNode is n for k in n.childNodes) and len(n.childNodes) == len(w.kids[id(n)]),
+                    'after a shallow clone the original\'s children no longer name it as their parent', 'parent-link')
+            e.check(all(k.parentNode is sh for k in sh.childNodes), 'children listed by a shallow clone do not name it as their parent', 'parent-link')
+            break
     # deep clone: equal shape and text, disjoint identities
     cl = w.root.cloneNode(True)
     ids = set(id(n) for n in order)
